@@ -189,6 +189,23 @@ func c15ResultCheck(c c15Result) vfResult {
 			r.Err = fmt.Errorf("ancestor %q is not itself", p.String())
 			return r
 		}
+		// an ancestor stands for a registered format: it answers to that format's aliases too
+		if reg := Lookup(p.String()); reg != nil && reg.Extension() == p.Extension() {
+			for _, a := range reg.aliases {
+				if !p.Is(a) || !p.Is("  "+strings.ToUpper(a)+"; q=1") {
+					r.Err = fmt.Errorf("ancestor %q of result %q does not answer to the registered alias %q", p.String(), s, a)
+					return r
+				}
+			}
+		}
+	}
+	if reg := Lookup(vfBare(s)); reg != nil && reg.Extension() == d.Extension() {
+		for _, a := range reg.aliases {
+			if !d.Is(a) {
+				r.Err = fmt.Errorf("result %q does not answer to the registered alias %q", s, a)
+				return r
+			}
+		}
 	}
 	r.Nontrivial = strings.Contains(s, ";")
 	if strings.Contains(s, "\"") || strings.Contains(s, "*=") {
